@@ -48,6 +48,7 @@ def run_case(ctx, gd, q, via="outcomes", cards=None):
 
 
 def run_shard(ctx):
+    gg.ALLOW_ODD = True  # node names that are not Python identifiers are node names like any other
     K = {"quick": 2, "thorough": 4}[ctx.tier]
     mon_id.install(semantic=True, K=K, max_card=3)
     mon_dsep.install()
